@@ -91,6 +91,26 @@ Theorem C30_counters :
 Proof. exact (@counters_main). Qed.
 Print Assumptions C30_counters.
 
+(* the bad-control scan of mj_fwdActuation over ALL nu entries of the (clamped) local control vector:
+   nothing bad: controls and data unchanged; otherwise, with i the position of the FIRST bad entry,
+   mj_warning(BADCTRL, i) (counter + 1, lastinfo i, nothing else changes) and every control is replaced by 0 *)
+Theorem C30_badctrl :
+  forall (S : Type) (ctrl : list float) (d : Data S),
+    (Forall (fun x => isBad x = false) ctrl -> check_ctrl ctrl d = (ctrl, d)) /\
+    (Exists (fun x => isBad x = true) ctrl ->
+       exists i : nat, (i < length ctrl)%nat /\ isBad (nth i ctrl PrimFloat.zero) = true /\
+         (forall j, (j < i)%nat -> isBad (nth j ctrl PrimFloat.zero) = false) /\
+         check_ctrl ctrl d = (repeat PrimFloat.zero (length ctrl), mj_warning d WARN_BADCTRL (Z.of_nat i))).
+Proof. exact (@check_ctrl_main). Qed.
+Print Assumptions C30_badctrl.
+
+Theorem C30_warning :
+  forall (S : Type) (d : Data S) (k : nat) (i : Z), (k < length (warn d))%nat ->
+    wget (mj_warning d k i) k = {| lastinfo := i; number := (number (wget d k) + 1)%Z |} /\
+    (forall j, j <> k -> wget (mj_warning d k i) j = wget d j) /\ core (mj_warning d k i) = core d.
+Proof. exact (@warning_get). Qed.
+Print Assumptions C30_warning.
+
 (* entries that pass the check are finite and bounded by 1e10, and the exact-real scalar Euler
    update (qvel' = qvel + h qacc, qpos' = qpos + h qvel') then stays below 3e10 < 2^1023
    (IEEE rounding of the update itself is outside this statement) *)
